@@ -11,8 +11,10 @@
 //!   QC <kind> <a> <b> <unit|-> <target>   ScaledQuantity::convert; target = u<hex> | smetric | simperial
 //!   QF <kind> <a> <b> <unit|->            ScaledQuantity::fit
 //!     kind n: a = number; r: a, b numbers; t: a = hex text; f: a = w,n,d,err (fraction)
-//!   RC <hex recipe text> <metric|imperial>   ScaledRecipe::convert vs converting every quantity on its own
-//!                                          (implementation only: the model has no recipe level)
+//!   RC <hex recipe text> <metric|imperial> [f<factor>]
+//!        ScaledRecipe::convert of the parsed recipe (default-scaled, or scaled by the factor) vs converting
+//!        every quantity on its own; prints `rc <visited> <converted> <errors> | <dump before> | <dump after> |
+//!        E <error kinds>` (see recipe_dump); the model (Model/RecipeConvert.v) converts the dump before
 //! Output: `<result> ; V <violated predicates|->` where the V field is the C09 monitor evaluated
 //! on what the implementation returned.
 use cooklang::convert::{
@@ -170,6 +172,50 @@ fn in_best(c: &Converter, u: &Unit, sys: System) -> bool {
     c.best_units(u.physical_quantity, Some(sys))
         .iter()
         .any(|b| b.as_ref() == u)
+}
+
+fn h64(s: &str) -> String {
+    use std::hash::{Hash, Hasher};
+    let mut h = std::collections::hash_map::DefaultHasher::new();
+    s.hash(&mut h);
+    format!("h{:016x}", h.finish())
+}
+
+/// One slot per item, joined by " / ": `M <frame>`, `I <frame> <quantity|->`, `C <frame>`,
+/// `T <name|-> <quantity|->`, `Q <quantity>`.  Frames are hashes of the Debug text of everything that
+/// is not a visited quantity (metadata, sections and scaling data; an ingredient without its quantity;
+/// a whole cookware item).  With `quantities == false` a present quantity is printed as `+`.
+fn recipe_dump(r: &cooklang::ScaledRecipe, quantities: bool) -> String {
+    let oq = |q: Option<&ScaledQuantity>| match q {
+        None => "-".to_string(),
+        Some(q) => {
+            if quantities {
+                q_dump(q)
+            } else {
+                "+".to_string()
+            }
+        }
+    };
+    let mut out = vec![format!(
+        "M {}",
+        h64(&format!("{:?}\u{1}{:?}\u{1}{:?}", r.metadata, r.sections, r.scaled()))
+    )];
+    for i in &r.ingredients {
+        let mut fr = i.clone();
+        fr.quantity = None;
+        out.push(format!("I {} {}", h64(&format!("{:?}", fr)), oq(i.quantity.as_ref())));
+    }
+    for k in &r.cookware {
+        out.push(format!("C {}", h64(&format!("{:?}", k))));
+    }
+    for t in &r.timers {
+        let name = t.name.as_ref().map(|n| hex(n)).unwrap_or_else(|| "-".to_string());
+        out.push(format!("T {} {}", name, oq(t.quantity.as_ref())));
+    }
+    for q in &r.inline_quantities {
+        out.push(format!("Q {}", oq(Some(q))));
+    }
+    out.join(" / ")
 }
 
 fn finish(res: String, viol: Vec<&str>) -> String {
@@ -376,47 +422,40 @@ fn main() {
                 }
             }
             "RC" => {
-                // ScaledRecipe::convert against converting each quantity on its own
+                // ScaledRecipe::convert: monitored against converting each quantity on its own, and dumped
+                // (before and after) for the comparison with Model/RecipeConvert.v
                 let text = unhex(f[1]);
                 let sys = parse_sys(f[2]);
                 let parser = cooklang::CooklangParser::new(cooklang::Extensions::all(), c.clone());
                 let Some(rec) = parser.parse(&text).into_output() else {
                     return "rc invalid".to_string();
                 };
-                let mut scaled = rec.default_scale();
-                let mut expect: Vec<(ScaledQuantity, bool)> = Vec::new(); // (result of converting alone, failed)
-                let mut each = |q: &ScaledQuantity| {
-                    let mut x = q.clone();
-                    let failed = x.convert(sys, &c).is_err();
-                    (x, failed)
+                let mut scaled = match f.get(3) {
+                    Some(fac) => rec.scale(parse_num(fac.strip_prefix('f').expect("factor f<m:e>")), &c),
+                    None => rec.default_scale(),
                 };
-                for i in &scaled.ingredients {
-                    if let Some(q) = &i.quantity {
-                        expect.push(each(q));
-                    }
-                }
-                for t in &scaled.timers {
-                    if let Some(q) = &t.quantity {
-                        expect.push(each(q));
-                    }
-                }
-                for q in &scaled.inline_quantities {
-                    expect.push(each(q));
-                }
-                let names_before: Vec<String> = scaled.ingredients.iter().map(|i| i.name.clone()).collect();
-                let cw_before = format!("{:?}", scaled.cookware);
-                let originals: Vec<ScaledQuantity> = scaled
-                    .ingredients.iter().filter_map(|i| i.quantity.clone())
-                    .chain(scaled.timers.iter().filter_map(|t| t.quantity.clone()))
-                    .chain(scaled.inline_quantities.iter().cloned())
+                let visited = |r: &cooklang::ScaledRecipe| -> Vec<ScaledQuantity> {
+                    r.ingredients.iter().filter_map(|i| i.quantity.clone())
+                        .chain(r.timers.iter().filter_map(|t| t.quantity.clone()))
+                        .chain(r.inline_quantities.iter().cloned())
+                        .collect()
+                };
+                let originals = visited(&scaled);
+                // (result of converting alone, failed)
+                let expect: Vec<(ScaledQuantity, bool)> = originals
+                    .iter()
+                    .map(|q| {
+                        let mut x = q.clone();
+                        let failed = x.convert(sys, &c).is_err();
+                        (x, failed)
+                    })
                     .collect();
+                let dump_in = recipe_dump(&scaled, true);
+                let frame_before = recipe_dump(&scaled, false);
                 let errors = scaled.convert(sys, &c);
-                let got: Vec<ScaledQuantity> = scaled
-                    .ingredients.iter().filter_map(|i| i.quantity.clone())
-                    .chain(scaled.timers.iter().filter_map(|t| t.quantity.clone()))
-                    .chain(scaled.inline_quantities.iter().cloned())
-                    .collect();
-                if got.len() != expect.len() {
+                let dump_out = recipe_dump(&scaled, true);
+                let got = visited(&scaled);
+                if frame_before != recipe_dump(&scaled, false) || got.len() != expect.len() {
                     viol.push("recipe_frame");
                 }
                 let nfail = expect.iter().filter(|e| e.1).count();
@@ -427,41 +466,50 @@ fn main() {
                     if format!("{:?}", g) != format!("{:?}", e) {
                         viol.push("recipe_vs_quantity");
                     }
+                    let is_text = matches!(o.value(), Value::Text(_));
+                    let known = o.unit_info(&c);
+                    // exactly the text / unit-less / unknown-unit quantities fail (every physical quantity of the
+                    // bundled table has designated units in both systems)
+                    if *failed != (is_text || known.is_none()) {
+                        viol.push(if *failed { "unexpected_failure" } else { "failure_expected" });
+                    }
                     if *failed {
                         if format!("{:?}", g) != format!("{:?}", o) {
                             viol.push("failure_frame");
                         }
                         continue;
                     }
-                    // a converted quantity sits in a designated unit of the target system and keeps its amount
-                    if let (Some(gu), Some(ou)) = (g.unit().and_then(|k| c.find_unit(k)), o.unit().and_then(|k| c.find_unit(k))) {
-                        if gu.system.is_some() && !in_best(&c, &gu, sys) {
-                            viol.push("best_member");
-                        }
-                        let val = |q: &ScaledQuantity| -> Option<(f64, f64)> {
-                            match q.value() {
-                                Value::Number(n) => Some((n.value(), n.value())),
-                                Value::Range { start, end } => Some((start.value(), end.value())),
-                                Value::Text(_) => None,
+                    // a converted quantity sits in a designated unit of the target system, of the same physical
+                    // quantity, and keeps its amount (both ends)
+                    match (g.unit_info(&c), known) {
+                        (Some(gu), Some(ou)) => {
+                            if !in_best(&c, &gu, sys) || gu.physical_quantity != ou.physical_quantity {
+                                viol.push("best_member");
                             }
-                        };
-                        if let (Some((a0, a1)), Some((b0, b1))) = (val(g), val(o)) {
-                            if !close(to_base(&gu, a0), to_base(&ou, b0), abs_tol(&gu))
-                                || !close(to_base(&gu, a1), to_base(&ou, b1), abs_tol(&gu))
-                            {
-                                viol.push("amount");
+                            match (q_amount(o, &c), q_amount(g, &c)) {
+                                (Some((a0, a1, _)), Some((b0, b1, tol))) => {
+                                    if !close(a0, b0, tol) || !close(a1, b1, tol) {
+                                        viol.push("amount");
+                                    }
+                                }
+                                _ => viol.push("amount"),
                             }
                         }
+                        _ => viol.push("best_member"),
                     }
-                }
-                if names_before != scaled.ingredients.iter().map(|i| i.name.clone()).collect::<Vec<_>>()
-                    || cw_before != format!("{:?}", scaled.cookware)
-                {
-                    viol.push("recipe_frame");
                 }
                 viol.sort();
                 viol.dedup();
-                format!("rc {} {} {}", got.len(), got.len() - nfail, errors.len())
+                let enames: Vec<&str> = errors.iter().map(err_name).collect();
+                format!(
+                    "rc {} {} {} | {} | {} | E {}",
+                    got.len(),
+                    got.len() - nfail,
+                    errors.len(),
+                    dump_in,
+                    dump_out,
+                    if enames.is_empty() { "-".to_string() } else { enames.join(",") }
+                )
             }
             "QC" | "QF" => {
                 let before = parse_quantity(f[1], f[2], f[3], f[4]);
